@@ -1,6 +1,7 @@
 package checks
 
 import (
+	"encoding/json"
 	"bytes"
 	"fmt"
 	"math/rand"
@@ -198,6 +199,12 @@ func C16(c *core.Ctx) {
 			if d != "grey" && err == nil {
 				c.Violation("C16:accepts:"+d, fmt.Sprintf("tlv.Decode(%x) accepted (re-encodes to %x) but BER assigns no tree to this input", in, nodes.Encode()), rp)
 			}
+			if d == "grey" && err == nil {
+				// no verdict on acceptance, but whatever is accepted must survive its own re-encoding
+				if law := roundTripLaw(nodes); law != "" {
+					c.Violation("C16:round-trip", fmt.Sprintf("tlv.Decode(%x) accepted, %s", in, law), rp)
+				}
+			}
 		case []any:
 			forest := specForest(d[0])
 			canon := core.Bytes(d[1])
@@ -215,6 +222,9 @@ func C16(c *core.Ctx) {
 			}
 			if de, err := tlv.DecodeEncode(bytes.Clone(in)); err != nil || !bytes.Equal(de, canon) {
 				c.Violation("C16:decode-encode", fmt.Sprintf("DecodeEncode(%x) = %x, %v; canonical form is %x", in, de, err, canon), rp)
+			}
+			if law := roundTripLaw(nodes); law != "" {
+				c.Violation("C16:round-trip", fmt.Sprintf("tlv.Decode(%x) accepted, %s", in, law), rp)
 			}
 			if d := checkLookups(nodes.NodeByTagOccur, nodes.Nodes(), forest); d != "" {
 				c.Violation("C16:lookup", fmt.Sprintf("input %x: %s", in, d), rp)
@@ -268,6 +278,11 @@ func C16(c *core.Ctx) {
 			l["canon"] = ints(nodes.Encode())
 		}
 		recs[i] = rec{in, core.JSONLine(l), err == nil}
+		if err == nil && pan == nil {
+			if law := roundTripLaw(nodes); law != "" {
+				c.Violation("C16:round-trip", fmt.Sprintf("tlv.Decode(%x) accepted, %s", in, law), map[string]any{"input": core.Hex(in)})
+			}
+		}
 	})
 	// limit lines: nesting 48..53 and element counts 9998..10002, definite and indefinite
 	type lim struct {
@@ -325,6 +340,25 @@ func C16(c *core.Ctx) {
 	}
 	c.Sample(map[string]any{"grammar_input": core.Hex(recs[0].in), "real_accepted": recs[0].ok})
 	c.Sample(map[string]any{"grammar_input": core.Hex(recs[1].in), "real_accepted": recs[1].ok})
+}
+
+// roundTripLaw: the re-encoding of an accepted input decodes again, to the same tree, and is a
+// fixed point of decode-encode (holds for every accepted input, whatever the verdict on acceptance).
+func roundTripLaw(nodes *tlv.TlvNodes) string {
+	enc := nodes.Encode()
+	again, err, pan := safeDecode(bytes.Clone(enc))
+	if err != nil || pan != nil {
+		return fmt.Sprintf("but its re-encoding %x is refused (%v %v)", enc, err, pan)
+	}
+	a, _ := json.Marshal(realTreeJSON(nodes.Nodes()))
+	b, _ := json.Marshal(realTreeJSON(again.Nodes()))
+	if !bytes.Equal(a, b) {
+		return fmt.Sprintf("but its re-encoding %x decodes to another tree", enc)
+	}
+	if enc2 := again.Encode(); !bytes.Equal(enc2, enc) {
+		return fmt.Sprintf("but its re-encoding %x is not a fixed point (%x)", enc, enc2)
+	}
+	return ""
 }
 
 // ---- generators ----------------------------------------------------------------------------
